@@ -8,6 +8,10 @@
 \*                  (thorough: + Exists,Set)  WithLapse TRUE                              (quick: 34 534 states)
 \*   gen  thorough: exhaustive 3 procs x 3 cands x 2 calls SetNX (1 330 755), 3x2x2 SetNX with faults (418 692),
 \*                  3x2x2 fallback (414 980); generation also from 2x3x2 (3 attempts) and 3x2x1
+\*   uniq         : the IDManager's retry layer (GenerateUniqueXxxID + caller's check function).  Procs p1,p2  NCands 2  MaxAttempts 2
+\*                  MaxU 2  layouts distinct,same  every pattern of pre-existing markers x repository ids.  quick: MaxCalls 1
+\*                  (7 776 states); thorough: Faults Check (generation: 10 676), exhaustive 3 candidates / MaxU 3 / Faults Check (234 728).
+\*                  ExhaustionReturnsLast FALSE = the code; IdGen_show_exhaustion.cfg / IdGen_show_checkerr.cfg: the deviations
 \*   node untimed : Procs n1,n2,n3  NSlots 2  MaxTicks 0  Faults SetNX,Entropy  NCands 6  MaxCalls 2   (4 527 states)
 \*   node timed   : (thorough) Procs n1,n2 (exhaustive: n1,n2,n3, MaxTicks 5)  NSlots 2  TTLTicks 3  MaxTicks 4
 \*                  RenewTier/Wiring = claim/split (repaired code), local/same (redis mode), local/split (as it was)
@@ -24,7 +28,7 @@
 \* INVS: gen both: GenOK;  gen SetNX: Unique HeldDisjoint NoTaken HeldMarked Exhaustion;  gen fallback: NoTaken
 \* Exhaustion FallbackOnlyDeviation;  node: NodeUnique NoForeign ClaimNeverExpiresUnderLiveHolder NoWrongTier
 \* FailedHoldsNothing Unique HeldDisjoint HeartbeatRunsWhileLive LeaseMargin NoHeartbeatWithoutHolder;  node as it was: NoForeign
-\* NodeOnlyDeviation.
+\* NodeOnlyDeviation;  uniq: UniqOK.
 \* IdGen_show_*.cfg: the same models with the plain property - TLC finds the duplicate.
 CONSTANTS
   Mode = "@@MODE@@"
@@ -47,6 +51,8 @@ CONSTANTS
   RenewTTLTicks = 3
   Realloc = @@REALLOC@@
   StopChan = "@@STOPCHAN@@"
+  MaxU = @@MAXU@@
+  ExhaustionReturnsLast = FALSE
   WithLapse = @@LAPSE@@
   Emit = @@EMIT@@
 INIT Init
